@@ -163,6 +163,10 @@ func RunCase(spec CaseSpec) (res CaseResult) {
 	}
 	g := NewGen(c, caseSeed, prof)
 	c.Monitors = append(c.Monitors, g)
+	if cfg.Keyless {
+		g.QueueFragment("lastBridgeValidatorLeaves")
+		st.Bucket("fragment|lastBridgeValidatorLeaves")
+	}
 	for _, f := range prof.Fragments {
 		g.QueueFragment(f)
 		st.Bucket("fragment|%s", f)
